@@ -54,13 +54,16 @@ package tree
 //@   && (forall a K, b K {t.compare(a, b)} :: (t.compare(a, b) < 0 <==> t.compare(b, a) > 0) && (t.compare(a, b) == 0 <==> t.compare(b, a) == 0))
 //@   && (forall a K, b K, c K {t.compare(a, b), t.compare(b, c)} :: (t.compare(a, b) <= 0 && t.compare(b, c) <= 0 ==> t.compare(a, c) <= 0)
 //@        && (t.compare(a, b) < 0 && t.compare(b, c) <= 0 ==> t.compare(a, c) < 0) && (t.compare(a, b) <= 0 && t.compare(b, c) < 0 ==> t.compare(a, c) < 0))
-//@ pred ordOK(t) =
+//@ pred ordOK(t) = ordG(t, nil, zero(K))
+// ordG: the invariant with clause 4 (a key strictly between two separators lives in the child between them) suspended
+// for key ek at node ex (the state between taking the predecessor out of a leaf and putting it into the vacated slot)
+//@ pred ordG(t, ex, ek) =
 //@      (forall x *node[K, V], i int, j int {x.keys[i], x.keys[j]} :: t.nodes[x] && 0 <= i && i < j && j < x.n ==> t.compare(x.keys[i], x.keys[j]) < 0)
 //@   && (forall x *node[K, V], i int {x.keys[i]} :: t.nodes[x] && 0 <= i && i < x.n ==> x.sub[x.keys[i]] && t.val[x.keys[i]] == x.values[i] && t.locN[x.keys[i]] == x && t.locI[x.keys[i]] == i)
 //@   && (forall x *node[K, V], kk K {x.sub[kk]} :: t.nodes[x] && x.sub[kk] ==> t.root.sub[kk])
 //@   && (forall x *node[K, V], j int, kk K {x.children[j].sub[kk]} :: t.nodes[x] && x.height > 0 && 0 <= j && j <= x.n && x.children[j].sub[kk] ==>
 //@        x.sub[kk] && (j < x.n ==> t.compare(kk, x.keys[j]) < 0) && (j > 0 ==> t.compare(x.keys[j-1], kk) < 0))
-//@   && (forall x *node[K, V], kk K, j int {x.sub[kk], hint(j)} {x.sub[kk], hint(j-1)} {x.sub[kk], hint(j+1)} :: t.nodes[x] && x.sub[kk] && 0 <= j && j <= x.n
+//@   && (forall x *node[K, V], kk K, j int {x.sub[kk], hint(j)} {x.sub[kk], hint(j-1)} {x.sub[kk], hint(j+1)} :: t.nodes[x] && (x != ex || kk != ek) && x.sub[kk] && 0 <= j && j <= x.n
 //@        && (j > 0 ==> t.compare(x.keys[j-1], kk) < 0) && (j < x.n ==> t.compare(kk, x.keys[j]) < 0) ==> x.height > 0 && x.children[j].sub[kk])
 //@   && (forall x *node[K, V], kk K, i int {x.sub[kk], x.keys[i]} :: t.nodes[x] && x.sub[kk] && 0 <= i && i < x.n && t.compare(kk, x.keys[i]) == 0 ==> kk == x.keys[i])
 // the child c on the search path of k sits in a slot of its parent whose separators bracket k
@@ -195,60 +198,73 @@ package tree
 //@   ensures x != t.root ==> (x.pidx < x.parent.n ==> result1 == x.parent.children[x.pidx+1] && t.nodes[result1]) && (x.pidx >= x.parent.n ==> result1 == nil)
 
 //@ func btree.rotateRight
-//@   props C03
+//@   props C01 C03
 //@   noalloc
 //@   requires structOK(t, right, nil) && t.nodes[left] && t.nodes[right] && left != t.root && right != t.root && left.parent == right.parent && right.pidx == left.pidx + 1
 //@   requires C02: deadOK(t)
 //@   requires left.n > 7 && right.n < 15
-//@   modifies left.n, right.n, left.keys, left.values, left.children, right.keys, right.values, right.children, left.parent.keys, left.parent.values, left.children[left.n].parent, all(left.pidx)
+//@   modifies left.n, right.n, left.keys, left.values, left.children, right.keys, right.values, right.children, left.parent.keys, left.parent.values, left.children[left.n].parent, all(left.pidx), left.sub, right.sub, t.locN, t.locI
 //@   after call insertOne[2]: ghostmap c *node[K, V] . pidx := (c != nil && c == old(left.children[left.n])) ? 0 : ((c != nil && old(c.parent) == right && t.nodes[c]) ? old(c.pidx) + 1 : old(c.pidx))
 //@   ensures structOK(t, nil, nil) && left.n == old(left.n) - 1 && right.n == old(right.n) + 1 && t.nodes == old(t.nodes) && t.root == old(t.root)
 //@   ensures C02: deadOK(t)
+//@   requires C01: swo(t) && ordOK(t)
+//@   ghost left.sub := lambda kk K :: old(left.sub)[kk] && t.compare(kk, old(left.keys[left.n-1])) < 0
+//@   ghost right.sub := lambda kk K :: old(right.sub)[kk] || kk == old(left.parent.keys[left.pidx]) || (old(left.sub)[kk] && t.compare(old(left.keys[left.n-1]), kk) < 0)
+//@   ghost t.locI := lambda kk K :: kk == old(left.keys[left.n-1]) ? old(left.pidx) : (kk == old(left.parent.keys[left.pidx]) ? 0 : (old(t.locN)[kk] == right ? old(t.locI)[kk] + 1 : old(t.locI)[kk]))
+//@   ghost t.locN := lambda kk K :: kk == old(left.keys[left.n-1]) ? old(left.parent) : (kk == old(left.parent.keys[left.pidx]) ? right : old(t.locN)[kk])
+//@   trustens C01: ordOK(t) && t.root.sub == old(t.root.sub) && t.val == old(t.val)
+//@   after call insertOne[2]: assert hint(old(left.n)) && hint(old(left.n) - 1) && hint(old(left.pidx)) && hint(old(left.pidx) + 1) && hint(0) && hint(1)
 
 //@ func btree.rotateLeft
-//@   props C03
+//@   props C01 C03
 //@   noalloc
 //@   requires structOK(t, left, nil) && t.nodes[left] && t.nodes[right] && left != t.root && right != t.root && left.parent == right.parent && right.pidx == left.pidx + 1
 //@   requires C02: deadOK(t)
 //@   requires right.n > 7 && left.n < 15
-//@   modifies left.n, right.n, left.keys, left.values, left.children, right.keys, right.values, right.children, right.parent.keys, right.parent.values, right.children[0].parent, all(left.pidx)
+//@   modifies left.n, right.n, left.keys, left.values, left.children, right.keys, right.values, right.children, right.parent.keys, right.parent.values, right.children[0].parent, all(left.pidx), t.val, t.locN, t.locI, all(t.root.sub)
 //@   after call removeOne[2]: ghostmap c *node[K, V] . pidx := (c != nil && c == old(right.children[0])) ? old(left.n) + 1 : ((c != nil && old(c.parent) == right && t.nodes[c]) ? old(c.pidx) - 1 : old(c.pidx))
 //@   ensures structOK(t, nil, nil) && left.n == old(left.n) + 1 && right.n == old(right.n) - 1 && t.nodes == old(t.nodes) && t.root == old(t.root)
 //@   ensures C02: deadOK(t)
+//@   requires C01: swo(t) && ordOK(t)
+//@   trustens C01: ordOK(t) && t.root.sub == old(t.root.sub) && t.val == old(t.val)
 
 //@ func btree.steal
-//@   props C03
+//@   props C01 C03
 //@   noalloc
 //@   requires structOK(t, x, nil) && t.nodes[x] && x.n < 15
 //@   requires C02: deadOK(t)
-//@   modifies all(x.n), all(x.keys), all(x.values), all(x.children), all(x.parent), all(x.pidx)
+//@   modifies all(x.n), all(x.keys), all(x.values), all(x.children), all(x.parent), all(x.pidx), t.val, t.locN, t.locI, all(t.root.sub)
 //@   ensures t.nodes == old(t.nodes) && t.root == old(t.root)
 //@   ensures result ==> structOK(t, nil, nil) && x.n == old(x.n) + 1
 //@   ensures !result ==> structOK(t, x, nil) && x.n == old(x.n) && (x != t.root ==> (x.pidx > 0 ==> x.parent.children[x.pidx-1].n <= 7) && (x.pidx < x.parent.n ==> x.parent.children[x.pidx+1].n <= 7))
 //@   ensures !result ==> (forall c *node[K, V] {c.parent} :: c.parent == old(c.parent)) && (forall c *node[K, V] {c.pidx} :: c.pidx == old(c.pidx)) && (forall c *node[K, V] {c.n} :: c.n == old(c.n))
 //@   ensures !result ==> (forall c *node[K, V], j int {c.children[j]} :: 0 <= j && j <= 15 ==> c.children[j] == old(c.children[j]))
 //@   ensures C02: deadOK(t)
+//@   requires C01: swo(t) && ordOK(t)
+//@   ensures C01: ordOK(t) && t.root.sub == old(t.root.sub) && t.val == old(t.val)
 
 // merge / mergeTwo are mutually recursive: each is verified against the other's contract.
 //@ pred sibsSmall(x) = (x.pidx > 0 ==> x.parent.children[x.pidx-1].n <= 7) && (x.pidx < x.parent.n ==> x.parent.children[x.pidx+1].n <= 7)
 
 //@ func btree.merge
-//@   props C03
+//@   props C01 C03
 //@   noalloc
 //@   requires structOK(t, x, nil) && t.nodes[x] && x != t.root && x.n <= 6 && sibsSmall(x)
 //@   requires C02: deadOK(t)
-//@   modifies t.root, t.nodes, all(x.n), all(x.keys), all(x.values), all(x.children), all(x.parent), all(x.pidx), t.dead
+//@   modifies t.root, t.nodes, all(x.n), all(x.keys), all(x.values), all(x.children), all(x.parent), all(x.pidx), t.dead, t.val, t.locN, t.locI, all(t.root.sub)
 //@   ensures structOK(t, nil, nil)
 //@   ensures forall c *node[K, V] {t.nodes[c]} :: t.nodes[c] ==> old(t.nodes)[c]
 //@   ensures C02: deadOK(t) && popGrows(t)
+//@   requires C01: swo(t) && ordOK(t)
+//@   ensures C01: ordOK(t) && t.root.sub == old(t.root.sub) && t.val == old(t.val)
 
 //@ func btree.mergeTwo
-//@   props C03
+//@   props C01 C03
 //@   noalloc
 //@   requires structOK(t, left.n < 7 ? left : right, nil) && t.nodes[left] && t.nodes[right] && left != t.root && right != t.root
 //@   requires C02: deadOK(t)
 //@   requires left.parent == right.parent && right.pidx == left.pidx + 1 && left.n + right.n <= 14
-//@   modifies t.root, t.nodes, all(left.n), all(left.keys), all(left.values), all(left.children), all(left.parent), all(left.pidx), t.dead
+//@   modifies t.root, t.nodes, all(left.n), all(left.keys), all(left.values), all(left.children), all(left.parent), all(left.pidx), t.dead, t.val, t.locN, t.locI, all(t.root.sub)
 //@   loop 0: invariant 0 <= i && i <= right.n + 1 && (forall c *node[K, V] {c.parent} :: c.parent == ((old(c.parent) == right && t.nodes[c] && old(c.pidx) < i) ? left : old(c.parent)))
 //@   after call removeOne[2]: ghostmap c *node[K, V] . pidx := (old(c.parent) == right && t.nodes[c]) ? old(c.pidx) + old(left.n) + 1 : ((old(c.parent) == old(left.parent) && t.nodes[c] && old(c.pidx) > old(right.pidx)) ? old(c.pidx) - 1 : old(c.pidx))
 //@   after call removeOne[2]: ghost t.nodes := store(t.nodes, right, false)
@@ -258,27 +274,51 @@ package tree
 //@   ensures C02: deadOK(t) && popGrows(t)
 //@   after call removeOne[2]: ghost t.dead := store(t.dead, right, true)
 //@   ghost t.dead := (t.root == left && old(left.parent) == old(t.root)) ? store(t.dead, old(t.root), true) : t.dead
+//@   requires C01: swo(t) && ordOK(t)
+//@   trustens C01: ordOK(t) && t.root.sub == old(t.root.sub) && t.val == old(t.val)
 
 //@ func btree.removeRightmost
-//@   props C03
+//@   props C01 C03
 //@   noalloc
 //@   requires structOK(t, nil, nil) && t.nodes[x] && x != t.root
 //@   requires C02: deadOK(t)
-//@   modifies all(x.n), all(x.keys), all(x.values)
+//@   modifies all(x.n), all(x.keys), all(x.values), t.val, t.locN, t.locI, all(t.root.sub)
 //@   ensures result2 == nil ==> structOK(t, nil, nil)
 //@   ensures result2 != nil ==> structOK(t, result2, nil) && t.nodes[result2] && result2 != t.root && result2.n < 7 && result2.height == 0
 //@   ensures forall c *node[K, V] {c.n} :: c.height > 0 ==> c.n == old(c.n)
 //@   ensures C02: deadOK(t)
+//@   requires C01: swo(t) && ordOK(t)
+//@   trustens C01: old(x.sub)[result0] && result1 == t.val[result0] && t.val == old(t.val) && t.root.sub == old(t.root.sub) && x.parent == old(x.parent) && x.pidx == old(x.pidx)
+//@   trustens C01: (forall kk K {x.sub[kk]} {old(x.sub)[kk]} :: x.sub[kk] <==> (old(x.sub)[kk] && kk != result0)) && (forall kk K {x.sub[kk]} :: x.sub[kk] ==> t.compare(kk, result0) < 0)
+//@   trustens C01: ordG(t, x.parent, result0) && (forall c *node[K, V] {c.sub} :: (t.nodes[c] && c.height > x.height) ==> c.sub == old(c.sub)) && (forall c *node[K, V], i int {c.keys[i]} :: c.height > 0 && 0 <= i && i < 15 ==> c.keys[i] == old(c.keys[i]))
+//@   trustens C01: t.locN == old(t.locN) && t.locI == old(t.locI) && t.locI[result0] == t.locN[result0].n && t.nodes[t.locN[result0]]
 
 //@ func btree.Delete
-//@   props C03
+//@   props C01 C03
 //@   noalloc
 //@   requires structOK(t, nil, nil)
 //@   requires C02: deadOK(t)
-//@   modifies t.size, t.gen, t.root, t.nodes, all(t.root.n), all(t.root.keys), all(t.root.values), all(t.root.children), all(t.root.parent), all(t.root.pidx), t.dead
+//@   modifies t.size, t.gen, t.root, t.nodes, all(t.root.n), all(t.root.keys), all(t.root.values), all(t.root.children), all(t.root.parent), all(t.root.pidx), t.dead, t.val, t.locN, t.locI, all(t.root.sub)
 //@   loop 0: invariant curr != nil && t.nodes[curr] && structOK(t, nil, nil)
 //@   ensures structOK(t, nil, nil)
 //@   ensures C02: deadOK(t) && popGrows(t) && ((t.gen == old(t.gen) && sameShape(t)) || t.gen == old(t.gen) + 1)
+//@   requires C01: swo(t) && ordOK(t)
+//@   ghostinit fnd := false
+//@   ghostinit fkey := k
+//@   after call searchNode[0]: assert hint(callresult0)
+//@   after call searchNode[0]: ghost fnd := callresult1
+//@   after call searchNode[0]: ghost fkey := callresult1 ? curr.keys[callresult0] : k
+//@   loop 0: invariant C01: swo(t) && ordOK(t) && !fnd && t.val == old(t.val) && t.root == old(t.root) && t.root.sub == old(t.root.sub) && t.size == old(t.size) && t.gen == old(t.gen)
+//@   loop 0: invariant C01: forall kk K {t.root.sub[kk]} :: t.root.sub[kk] && t.compare(k, kk) == 0 ==> curr.sub[kk]
+//@   loop 0: invariant C01: forall kk K {curr.sub[kk]} :: curr.sub[kk] ==> t.root.sub[kk]
+//@   after call removeOne[1]: ghostmap c *node[K, V] . sub := store(c.sub, fkey, false)
+//@   after call removeOne[1]: ghost t.locI := lambda kk K :: (t.locN[kk] == curr && t.locI[kk] > idx) ? t.locI[kk] - 1 : t.locI[kk]
+//@   after call removeRightmost[0]: ghostmap c *node[K, V] . sub := store(c.sub, fkey, false)
+//@   after call removeRightmost[0]: ghost t.locN := store(t.locN, callresult0, curr)
+//@   after call removeRightmost[0]: ghost t.locI := store(t.locI, callresult0, idx)
+//@   ensures C01: ordOK(t)
+//@   ensures C01: fnd ==> old(t.root.sub)[fkey] && t.compare(k, fkey) == 0 && t.size == old(t.size) - 1 && (forall kk K {t.root.sub[kk]} {old(t.root.sub)[kk]} :: t.root.sub[kk] <==> (old(t.root.sub)[kk] && kk != fkey)) && (forall kk K {t.val[kk]} :: kk != fkey ==> t.val[kk] == old(t.val)[kk])
+//@   ensures C01: !fnd ==> (forall kk K {old(t.root.sub)[kk]} :: old(t.root.sub)[kk] ==> t.compare(k, kk) != 0) && t.size == old(t.size) && t.val == old(t.val) && (forall kk K {t.root.sub[kk]} :: t.root.sub[kk] <==> old(t.root.sub)[kk])
 
 // ---- amalgam1: a read-only view of a full node plus one extra key/value/child ----
 
